@@ -212,10 +212,47 @@ def audit_axioms(module, names):
 # running case streams
 # ---------------------------------------------------------------------------------------------
 
-def run_bin(binary, text, timeout=3000):
+def _run_once(binary, text, timeout):
     p = subprocess.run([binary], input=text, stdout=subprocess.PIPE, stderr=subprocess.DEVNULL,
                        text=True, timeout=timeout)
     return p.returncode, p.stdout.split("\n")
+
+
+HANG_MARK = "<missing: no answer within the time budget (hang)>"
+
+
+def run_bin(binary, text, timeout=None):
+    """run a driver on a script.  A driver that does not answer within the budget (120 s + 20 ms per input line, or
+    `timeout`) is not allowed to stall the check: the script is bisected along its `# case` blocks, the hanging case
+    is answered with HANG_MARK (reported as a disagreement / oracle failure by the campaign) and the other cases are
+    still evaluated."""
+    budget = timeout or (120 + 0.02 * text.count("\n"))
+    try:
+        return _run_once(binary, text, budget)
+    except subprocess.TimeoutExpired:
+        pass
+    # split into case blocks
+    blocks, cur = [], []
+    for ln in text.split("\n"):
+        if ln.startswith("# case ") and cur:
+            blocks.append(cur)
+            cur = []
+        cur.append(ln)
+    if cur:
+        blocks.append(cur)
+    if len(blocks) <= 1:
+        return -9, [l for l in text.split("\n") if l.startswith("# case ")] + [HANG_MARK]
+
+    def solve(bs):
+        t = "\n".join("\n".join(b) for b in bs) + "\n"
+        try:
+            return _run_once(binary, t, 20 + 0.02 * t.count("\n"))[1]
+        except subprocess.TimeoutExpired:
+            if len(bs) == 1:
+                return [bs[0][0], HANG_MARK]
+            h = len(bs) // 2
+            return solve(bs[:h]) + solve(bs[h:])
+    return -9, solve(blocks)
 
 
 class Case:
